@@ -11,9 +11,9 @@ import (
 // MonC07: one ObjectSet per template, with unique, increasing revision numbers.
 type MonC07 struct {
 	BaseMon
-	epoch   map[string]int            // deployment uid -> template epoch
-	epochAt map[string]int            // uid/generation -> template epoch of that generation
-	created map[string][]string       // uid/epoch -> created ObjectSet names
+	epoch   map[string]int      // deployment uid -> template epoch
+	epochAt map[string]int      // uid/generation -> template epoch of that generation
+	created map[string][]string // uid/epoch -> created ObjectSet names
 }
 
 func (m *MonC07) ID() string { return "C07" }
@@ -200,6 +200,7 @@ func (m *MonC07) checkRevision(w *World, r *Req, rev int64) {
 						}
 					}
 				}
+				w.Taint["run"] = "after-duplicate-revision"
 				w.Report(Violation{Property: "C07", Rule: "revision-duplicate", Sig: shortSite(r.Site) + "/" + cause, Seq: r.Seq,
 					Msg: fmt.Sprintf("%s was given revision %d which %s of the same deployment already has", r.Key(), rev, k)})
 				return
